@@ -598,6 +598,16 @@ func ruleMapCloseOut(c *Ctx, r *R) {
 						if cv, ok := y.(*ssa.Convert); ok {
 							y = cv.X
 						}
+						// the count-down lives in a small type (workers.finishOne(): AddUint32(&c.nDone, 1) == c.total, with
+						// total set by newWorkerCountdown(parallelism)): the bound is what the constructor was given
+						if cf.via != nil {
+							if v := fieldSetByCtor(y, cf.env()); v != nil {
+								y = v
+								if cv, ok := y.(*ssa.Convert); ok {
+									y = cv.X
+								}
+							}
+						}
 						if (parCell != nil && loadCell(y) == parCell) || (parVal != nil && y == parVal) || (parCell != nil && cellOf(freeVarAddr(y)) == parCell) || (parVal != nil && sameRootVar(y, parVal)) {
 							okGuard = true
 						}
@@ -830,4 +840,53 @@ func mapChansOf(c *Ctx, root string) mapChans {
 		})
 	}
 	return mc
+}
+
+// fieldSetByCtor: v (read in the frame described by env) is a field of an object that a constructor helper of the package
+// built; the result is the value - in the constructor's CALLER - that the constructor stored into that field, or nil.
+func fieldSetByCtor(v ssa.Value, env provEnv) ssa.Value {
+	pv := valueProv(v, env)
+	if len(pv.fields) != 1 {
+		return nil
+	}
+	var ctor *ssa.Call
+	for _, lf := range valueLeaves(pv.root, nil, 0) {
+		if cc, ok := lf.v.(*ssa.Call); ok {
+			ctor = cc
+		}
+	}
+	if cc, ok := resolveVal(pv.root).(*ssa.Call); ok {
+		ctor = cc
+	}
+	if ctor == nil {
+		return nil
+	}
+	cal := staticCallee(&ctor.Call)
+	if cal == nil || cal.Blocks == nil {
+		return nil
+	}
+	var out ssa.Value
+	instrs(origin(cal), func(_ *ssa.BasicBlock, _ int, in ssa.Instruction) {
+		st, ok := in.(*ssa.Store)
+		if !ok {
+			return
+		}
+		fa, ok := st.Addr.(*ssa.FieldAddr)
+		if !ok || fieldName(fa.X.Type(), fa.Field) != pv.fields[0] {
+			return
+		}
+		if _, isAl := fa.X.(*ssa.Alloc); !isAl {
+			return
+		}
+		val := st.Val
+		for {
+			if cv, ok := val.(*ssa.Convert); ok {
+				val = cv.X
+				continue
+			}
+			break
+		}
+		out = argOf(val, []*ssa.Call{ctor})
+	})
+	return out
 }
